@@ -78,6 +78,9 @@ impl Engine for Chunking {
                     out.fail("empty-input-invalid-file", "encoding zero PCM frames reported success but the file is not decodable");
                 }
             }
+        } else if let Err(EncErr::Options(_)) = &canon {
+            out.label("options-refused");
+            return out;
         } else if let Err(e) = &canon {
             out.fail(format!("canonical-encode-error:{}:{}", e.stage(), strip_digits(e.text())), format!("{e:?}"));
             return out;
